@@ -6,7 +6,7 @@
 From Coq Require Import List NArith ZArith Bool Arith Lia.
 Import ListNotations.
 From LC.Base Require Import Utf8.
-From LC.V1 Require Import Tok1 Matcher1 Tok1Proof Matcher1Proof.
+From LC.V1 Require Import Tok1 Matcher1 Tok1Proof Matcher1Proof Matcher1Straddle.
 
 (* a token-aligned verbatim occurrence is reported with exactly its Offset and Extent (one-token occurrences included, since the "fix:") *)
 (* statement as proved in V1/Matcher1Proof.v (written out; checked against the lemma by exact) *)
@@ -29,6 +29,37 @@ Theorem C13_reported_spans_inside_text :
          exact_span b toks ulen a0 a1 = XSpan o e -> (0 <= o)%Z /\ (0 <= e)%Z /\ (o + e <= ulen)%Z.
 Proof. exact (@exact_span_in_bounds). Qed.
 Print Assumptions C13_reported_spans_inside_text.
+
+(* the recorded known finding, pinned down: when the copy ends strictly inside a token (it is continued by word characters) the reported Extent runs to the end of that token *)
+(* statement as proved in V1/Matcher1Straddle.v (written out; checked against the lemma by exact) *)
+Theorem C13_occurrence_ending_inside_a_token :
+  forall (ulen : Z) (toks : list token) (i j : nat) (ti tj : token) (a0 a1 : Z),
+         wf_toks ulen toks ->
+         nth_error toks i = Some ti ->
+         nth_error toks j = Some tj ->
+         i <= j ->
+         a0 = Z.of_N (t_off ti) ->
+         (Z.of_N (t_off tj) < a1)%Z ->
+         (a1 < tend tj)%Z -> exact_span true toks ulen a0 a1 = XSpan a0 (tend tj - a0).
+Proof. exact (@exact_span_straddle). Qed.
+Print Assumptions C13_occurrence_ending_inside_a_token.
+
+(* ... so "Offset/Extent delimit exactly that copy" fails there by exactly the rest of that token, and only there (C13_exact_occurrence_span covers the aligned case) *)
+(* statement as proved in V1/Matcher1Straddle.v (written out; checked against the lemma by exact) *)
+Theorem C13_straddle_overshoot :
+  forall (ulen : Z) (toks : list token) (i j : nat) (ti tj : token) (a0 a1 : Z),
+         wf_toks ulen toks ->
+         nth_error toks i = Some ti ->
+         nth_error toks j = Some tj ->
+         i <= j ->
+         a0 = Z.of_N (t_off ti) ->
+         (Z.of_N (t_off tj) < a1)%Z ->
+         (a1 < tend tj)%Z ->
+         exists e : Z,
+           exact_span true toks ulen a0 a1 = XSpan a0 e /\
+           (e - (a1 - a0))%Z = (tend tj - a1)%Z /\ (0 < e - (a1 - a0))%Z.
+Proof. exact (@exact_span_straddle_overshoot). Qed.
+Print Assumptions C13_straddle_overshoot.
 
 (* the scan as found was already exact for occurrences of at least two tokens *)
 (* statement as proved in V1/Matcher1Proof.v (written out; checked against the lemma by exact) *)
